@@ -39,6 +39,12 @@ type Store struct {
 	running bool
 	err     error
 
+	// writeLks serialize Put and Remove calls on keys whose index keys start
+	// with the same byte, which includes all keys that share an index bucket.
+	// Put and Remove look up the index, write the primary, and then modify the
+	// index as separate steps, and these must not interleave for one key.
+	writeLks [256]sync.Mutex
+
 	rateLk      sync.RWMutex
 	flushRate   float64 // rate at which data can be flushed
 	burstRate   types.Work
@@ -362,6 +368,15 @@ func (s *Store) Put(key []byte, value []byte) error {
 	if err != nil {
 		return err
 	}
+	writeLk := s.writeLock(indexKey)
+	writeLk.Lock()
+	locked := true
+	defer func() {
+		if locked {
+			writeLk.Unlock()
+		}
+	}()
+
 	// See if the key already exists and get offset
 	prevOffset, found, err := s.index.Get(indexKey)
 	if err != nil {
@@ -424,9 +439,20 @@ func (s *Store) Put(key []byte, value []byte) error {
 		}
 	}
 
+	// Do not hold the lock while waiting for a flush.
+	locked = false
+	writeLk.Unlock()
+
 	s.flushTick()
 
 	return nil
+}
+
+func (s *Store) writeLock(indexKey []byte) *sync.Mutex {
+	if len(indexKey) == 0 {
+		return &s.writeLks[0]
+	}
+	return &s.writeLks[indexKey[0]]
 }
 
 func (s *Store) Remove(key []byte) (bool, error) {
@@ -440,6 +466,15 @@ func (s *Store) Remove(key []byte) (bool, error) {
 	if err != nil {
 		return false, err
 	}
+	writeLk := s.writeLock(indexKey)
+	writeLk.Lock()
+	locked := true
+	defer func() {
+		if locked {
+			writeLk.Unlock()
+		}
+	}()
+
 	// See if the key already exists and get offset
 	offset, found, err := s.index.Get(indexKey)
 	if err != nil {
@@ -474,6 +509,10 @@ func (s *Store) Remove(key []byte) (bool, error) {
 			return false, err
 		}
 	}
+
+	// Do not hold the lock while waiting for a flush.
+	locked = false
+	writeLk.Unlock()
 
 	s.flushTick()
 	return removed, nil
